@@ -34,11 +34,20 @@ def cfg_with(base, repl, drop_post=True, name=None):
     return p
 
 
-def tlc_emit(v, label, spec, cfg, out, timeout):
+EMITS = {}
+
+
+def start_emit(label, spec, cfg, out, timeout):
     if os.path.exists(out):
         os.unlink(out)
-    r = tlc_must_pass(label, spec, cfg, timeout=timeout, env={"C18_OUT": out}, metaname="c18_" + label,
-                      heap=HEAP, workers=WORKERS)
+    EMITS[label] = POOL.submit(tlc_must_pass, label, spec, cfg, timeout=timeout, env={"C18_OUT": out},
+                               metaname="c18_" + label, heap=HEAP, workers=WORKERS)
+
+
+def tlc_emit(v, label, spec, cfg, out, timeout):
+    if label not in EMITS:
+        start_emit(label, spec, cfg, out, timeout)
+    r = EMITS.pop(label).result()
     v.add_model(label, r)
     if r.violated:
         p = save_replay(PROP, label + ".tlc.out", r.out)
@@ -50,7 +59,7 @@ def tlc_emit(v, label, spec, cfg, out, timeout):
 
 
 HEAP = "3g"        # the checks share the machine: never let a JVM take its default quarter of the RAM
-WORKERS = max(2, min(8, NCPU // 2))
+WORKERS = max(2, min(6, NCPU // 2))
 POOL = None
 PENDING = []       # (kind, name, spec, future)
 
@@ -284,6 +293,7 @@ def part_frames(v, tier, seed, drv):
     budget = time.time() + (200 if tier == "quick" else 1500)
     ran = nobs = nass = nhelper = 0
     fails = []
+    broken = None
     for k, txt, out, pr in procs:
         try:
             rc = pr.wait(timeout=max(5, budget - time.time()))
@@ -302,9 +312,12 @@ def part_frames(v, tier, seed, drv):
         if m:
             ran += int(m.group(1)); nobs += int(m.group(2)); nass += int(m.group(3)); nhelper += int(m.group(5))
         elif rc == 124:
+            broken = "drv_frames did not finish its %d cases inside the time budget (machine overloaded?)" % len(open(txt).readlines())
+        elif rc == 71:
+            # an item never completed: that is a progress failure (C01), not something C18 states
             lastc = int(last[-1]) if last else -1
-            p = save_replay(PROP, "frames_hang_%d.txt" % k, (case_line(lastc, cases[lastc], 0) if lastc >= 0 else "") + text[-3000:])
-            v.violation("frames: the item of case %d never completed (hang) - %s" % (lastc, json.dumps(cases[lastc]) if lastc >= 0 else "?"), p)
+            broken = "drv_frames: the work item of case %d never ran to completion (no progress for 120 s): %s" % (
+                lastc, json.dumps(cases[lastc]) if lastc >= 0 else "?")
         else:
             lastc = int(last[-1]) if last else -1
             p = save_replay(PROP, "frames_crash_%d.txt" % k, (case_line(lastc, cases[lastc], 0) if lastc >= 0 else "") + text[-3000:])
@@ -317,6 +330,8 @@ def part_frames(v, tier, seed, drv):
         cid = int(fails[0][0].split()[1])
         p = save_replay(PROP, "frames_fail.txt", case_line(cid, cases[cid], 0) + "\n".join(f[0] for f in fails[:50]) + "\n")
         v.violation("frames: %d mismatches, first: %s | case: %s" % (len(fails), fails[0][0][5:], json.dumps(cases[cid])), p)
+    if broken and not v.violations:
+        raise Broken(broken)
     if cases:
         c = cases[chosen[0]]
         v.samples.append({"frames_case": {k2: c[k2] for k2 in ("da", "ka", "db", "kb", "bpath", "path", "k1", "k2", "obs")}})
@@ -334,8 +349,13 @@ def run(tier, seed):
     global POOL
     drv = build_driver("drv_attr")
     drvf = build_driver("drv_frames")
-    POOL = ThreadPoolExecutor(max_workers=3)
+    POOL = ThreadPoolExecutor(max_workers=4)
     try:
+        # the three emitting model-checking runs are independent: start them together
+        d = rundir(PROP)
+        start_emit("AttrGlobal_fixed", "AttrGlobal.tla", "AttrGlobal_fixed.cfg", os.path.join(d, "global_vectors.json"), 600)
+        fb = "Frames_q" if tier == "quick" else "Frames_t"
+        start_emit(fb, "Frames.tla", fb + ".cfg", os.path.join(d, "frames_cases_%s.json" % fb), 2400)
         part_attr(v, tier, seed, drv)
         part_global(v, tier, seed, drv)
         part_frames(v, tier, seed, drvf)
@@ -346,15 +366,34 @@ def run(tier, seed):
 
 
 def replay(path, seed):
-    """Replays a saved failing Frames case on the current tree; other artefacts are printed."""
+    """Re-runs what a saved artefact describes on the current tree: a Frames case file starts
+    with its case line; attr_* / global_* artefacts re-run that (exhaustive) part."""
+    global POOL
     text = open(path).read()
     first = text.splitlines()[0] if text else ""
     if first.startswith("C "):
         drvf = build_driver("drv_frames")
         one = os.path.join(rundir(PROP), "replay_case.txt")
         open(one, "w").write(first + "\n")
-        rc, out, err = sh([drvf, one, "0", "1", "1"], timeout=120)
+        rc, out, err = sh([drvf, one, "0", "1", "1"], timeout=300)
         print(out[-4000:], err[-2000:])
         return 1 if ("FAIL " in out or rc != 0) else 0
+    base = os.path.basename(path)
+    if base.startswith("attr_") or base.startswith("global_"):
+        v = Verdict(PROP, "quick", seed)
+        drv = build_driver("drv_attr")
+        POOL = ThreadPoolExecutor(max_workers=3)
+        try:
+            (part_attr if base.startswith("attr_") else part_global)(v, "thorough", seed, drv)
+            for _, _, _, fut in PENDING:
+                fut.result()
+            del PENDING[:]
+        finally:
+            POOL.shutdown(wait=True)
+        for t, p in v.violations:
+            print("VIOLATION property=%s replay=%s\n  detail: %s" % (PROP, p, t))
+        for k in v.known:
+            print("KNOWN-FINDING: property=%s %s" % (PROP, k))
+        return 1 if v.violations else 0
     print(text[-6000:])
     return 1
